@@ -4,6 +4,7 @@ import Infretis.Lemmas.PermProb
 import Infretis.Lemmas.PermGlynn
 import Infretis.Lemmas.PermStair
 import Infretis.Lemmas.PermPipe
+import Infretis.Lemmas.PermFinal
 import Mathlib.Tactic.NormNum
 /-!
 # C02 — swap probabilities equal the exact permanent ratios
@@ -177,5 +178,28 @@ theorem permanentProb_eq_spec (arr : Mat) (h2 : 2 ≤ arr.length)
     obtain ⟨r0, hr0, rfl⟩ := List.mem_map.mp (List.mem_of_mem_eraseIdx hr1)
     have := hsq r0 hr0
     simp only [scaleRow, List.length_eraseIdx, List.length_map, this, if_pos hj]
+
+
+example : 2 ≤ wMatrix2.length ∧ (∀ r ∈ wMatrix2, r.length = wMatrix2.length)
+    ∧ (∀ r ∈ wMatrix2, maxL r ≠ 0) ∧ permC wMatrix2 ≠ 0 := by decide +kernel
+
+/-- **The fast and the permanent code paths agree** on every staircase block (size ≥ 2) that
+    satisfies Hall's condition: `permanent_prob` (rescaling + Glynn + normalisation) returns
+    exactly the matrix of `quick_prob`. -/
+theorem quick_eq_permanent_path (cnts : List Nat) (h2 : 2 ≤ cnts.length)
+    (hall : ∀ c, c < cnts.length → 1 ≤ Dnum cnts c) :
+    permanentProb (stair cnts) = .ok (quickProb (stair cnts)) := by
+  rw [quickProb_stair_eq_spec cnts hall]
+  apply permanentProb_eq_spec
+  · simpa [stair] using h2
+  · intro r hr
+    simp only [stair, List.mem_map] at hr
+    obtain ⟨k, _, rfl⟩ := hr
+    simp [stair, stairRow]
+  · exact maxL_stair_ne_zero cnts hall
+  · exact permC_stair_ne_zero cnts hall
+
+example : permanentProb (stair [2, 2, 3]) = .ok (quickProb (stair [2, 2, 3]))
+    ∧ quickProb (stair [2, 2, 3]) = [[1/2, 1/2, 0], [1/2, 1/2, 0], [0, 0, 1]] := by decide +kernel
 
 end Infretis.C02
